@@ -16,6 +16,7 @@ import sys
 import time
 
 ROOT = os.path.dirname(os.path.dirname(os.path.abspath(__file__)))
+ALSO = []  # --also C34,C08: further checks to run against the patched copy (a change usually breaks more than one property)
 
 
 def run(cmd, cwd=None, env=None, timeout=1800):
@@ -43,7 +44,8 @@ def one(name, jobs):
         rc1, _ = run(["/venv/bin/python", os.path.join(d, "demo.py")], cwd=scratch, env=env)
         rec["demo_patched_exit"] = rc1
         rec["still_breaks"] = rc0 == 0 and rc1 != 0
-        checks = [pid] + [p for p in (meta.get("check_results") or {}) if p != pid]
+        checks = [pid] + [p for p in list(meta.get("check_results") or {}) + ALSO if p != pid]
+        checks = list(dict.fromkeys(checks))
         rec["checks"] = {}
         for p in checks:
             t0 = time.time()
@@ -65,7 +67,9 @@ def main():
     args = [a for a in sys.argv[1:] if not a.startswith("--")]
     jobs = int(sys.argv[sys.argv.index("--jobs") + 1]) if "--jobs" in sys.argv else 4
     par = int(sys.argv[sys.argv.index("--par") + 1]) if "--par" in sys.argv else 4
-    for flag in ("--jobs", "--par"):
+    if "--also" in sys.argv:
+        ALSO.extend(sys.argv[sys.argv.index("--also") + 1].split(","))
+    for flag in ("--jobs", "--par", "--also"):
         if flag in sys.argv:
             args = [a for a in args if a != sys.argv[sys.argv.index(flag) + 1]]
     names = args or sorted(n for n in os.listdir(os.path.join(ROOT, "seeded"))
